@@ -154,6 +154,17 @@ def h_mps_whole(H, net, training):
         if prod in summ:
             H.ensure('[C02] summary:input-precision-of-a-layer-is-the-output-precision-of-its-producer', summ[name]['in_precision'] == summ[prod]['out_precision'])
     H.ensure('export:model-output-unchanged-by-export', H.eq(model(x), y_nas))
+    if training:
+        # C18 in the middle of a search: training mode, coefficients sampled by the last training forward (soft); export() must leave
+        # what the next cost read sees exactly as it was
+        model.train()
+        for m in model.seed.modules():
+            if hasattr(m, 'sample_alpha') and hasattr(m, 'theta_alpha'):
+                m.sample_alpha()               # what the training forward does to the sampled coefficients (soft in training mode)
+        c_before = H.scalar(model.get_cost())
+        model.export()
+        H.ensure('[C18] export:cost-read-after-export-in-training-mode-equals-the-cost-before', H.eq(H.scalar(model.get_cost()), c_before))
+        H.ensure('[C18] export:training-mode-kept', all(m.training for m in model.modules()))
 
 
 PROPERTY = {}
@@ -164,7 +175,7 @@ _FUNCS = [_P + 'mps.py::MPS.__init__', _P + 'mps.py::MPS.export', _P + 'mps.py::
           _P + 'graph.py::build_shared_mps_qtz_map', _P + 'graph.py::convert_layers', _P + 'graph.py::autoimport_node', _P + 'graph.py::export_node',
           _P + 'graph.py::add_input_quantizer', _P + 'graph.py::fuse_mps_modules', _P + 'graph.py::register_in_mps_quantizers']
 HARNESSES = [
-    dict(name='whole-mps', fn='h_mps_whole', property=['C02', 'C05', 'C11', 'C07'], functions=_FUNCS,
+    dict(name='whole-mps', fn='h_mps_whole', property=['C02', 'C05', 'C11', 'C07', 'C18'], functions=_FUNCS,
          quick=[dict(net='chain', training=True), dict(net='residual', training=False), dict(net='depthwise-first', training=False), dict(net='depthwise-middle', training=False)],
          thorough=[dict(net=n, training=t) for n in NETS for t in _B], timeout=120, crosscheck=2),
 ]
